@@ -100,6 +100,17 @@ class C08(Prop):
                                 yield dict(kind=name, dom=dom, ms=specs, truth=str(rng.choice(['dirichlet', 'skewed', 'uniform'])),
                                            zeros=zeros_for(dom, cliques, rng) if z else [], total=total, engine=eng, iters=it, seed=nxt())
 
+        # 4. branching junction trees (5 attributes of size 2..3): the refit of RDA / IG must condition every clique on ALL cliques listed before it
+        for rep in range(1 if tier == 'quick' else 6):
+            for it in ITERS:
+                for eng in ENGINES:
+                    dom = MC.rand_dom(rng, 5, lo=2, hi=3)
+                    st = MC.structures(5)
+                    name = str(rng.choice(['branch', 'fork']))
+                    specs = MC.rand_specs(rng, st[name])
+                    yield dict(kind=name, dom=dom, ms=specs, truth=str(rng.choice(['dirichlet', 'skewed'])), zeros=[], total=float(rng.choice([1.0, 100.0])),
+                               engine=eng, iters=it, seed=nxt())
+
     def nontrivial(self, case):
         return bool(case['ms']) or bool(case['zeros'])
 
